@@ -19,6 +19,7 @@ import (
 	"os"
 	"strings"
 	"sync"
+	"sync/atomic"
 	"testing"
 	"time"
 
@@ -69,6 +70,9 @@ type c01In struct {
 	H        c01Handler
 	Engine   string
 	Contract []byte // 20 bytes
+	// end-to-end case (zz_verif_c01e2e_test.go): a real node.NewNode provider, chain endpoint, engine over
+	// the node's gRPC API, a second libp2p peer as sender; H/Engine/Contract are unused then
+	E2E *c01E2EIn `json:",omitempty"`
 }
 
 // ---- observations -----------------------------------------------------------------------------------
@@ -94,6 +98,9 @@ type c01Obs struct {
 	// after the handler started; the checker orders them against the 5 s literal of Generated.v
 	TimedAt     int // -1: not a timed case
 	EventsAfter []string
+	Mode        int    // 0: everything observed; 1: end-to-end (transactions and reply frame only)
+	Contract    []byte `json:",omitempty"` // end-to-end: the configured contract
+	Note        string `json:",omitempty"`
 }
 
 // ---- fakes ------------------------------------------------------------------------------------------
@@ -350,14 +357,67 @@ func c01CoqPreconf(c *preconfpb.PreConfirmation) string {
 	return coqRecord("c_bid", c01CoqBid(b), "c_dig", coqBytes(c.Digest), "c_sig", coqBytes(c.Signature))
 }
 
+// ---- one end-to-end case, projected to the same observation and event vocabulary ----------------------------
+
+func c01RunE2ECase(t testing.TB, e2 c01E2EIn, slow int) c01Obs {
+	c01Setup(t)
+	o := c01RunE2E(t, e2, slow)
+	obs := c01Obs{Rets: [][2]int{}, Signed: [][]byte{}, Sends: []c01Send{}, Writes: []c01Write{}, Events: []string{},
+		TimedAt: -1, EventsAfter: []string{}, Mode: 1, Contract: o.PreconfContract, Note: o.Err}
+	if o.Err != "" || o.SentBid == nil {
+		obs.Mode = 2 // the harness itself failed (ports, start-up): reported as a mismatch, never as a violation
+		return obs
+	}
+	ev := func(s string) { obs.Events = append(obs.Events, s) }
+	bid := o.SentBid
+	plain := preconfsigner.NewSigner(&c01Key{key: c01NodeKey})
+	verify := "VErr"
+	if a, err := plain.VerifyBid(proto.Clone(bid).(*preconfpb.Bid)); err == nil {
+		verify = coqApp("VOk", coqBytes(a.Bytes()))
+	}
+	kterm := "KFail"
+	if c, err := plain.ConstructPreConfirmation(proto.Clone(bid).(*preconfpb.Bid)); err == nil {
+		kterm = coqApp("KOk", coqBytes(c.Digest), coqBytes(c.Signature))
+	}
+	role := map[string]int{"bidder": int(p2p.PeerTypeBidder), "provider": int(p2p.PeerTypeProvider)}[e2.Role]
+	ev(coqApp("Arrive", "1%N", coqZ(int64(role)),
+		coqRecord("o_read", "(Some "+c01CoqBid(bid)+")", "o_verify", verify, "o_allow", coqBool(e2.Allow))))
+	if len(o.EngineGot) > 0 {
+		ev(coqApp("EngineTake", "1%N"))
+	}
+	st := map[string]int64{"accept": 1, "reject": 2}[e2.Engine]
+	if st != 0 {
+		ev(coqApp("Lookup", "0%N", coqBytes(bid.Digest), coqZ(st)))
+		ev(coqApp("Callback", "0%N"))
+		ev(coqApp("TakeDecision", "1%N", kterm))
+		ev(coqApp("StoreRes", "1%N", coqBool(e2.StoreOK)))
+		ev(coqApp("WriteRes", "1%N", "true"))
+	}
+	ev(coqApp("DeadlineFire", "1%N"))
+	obs.Sends = append(obs.Sends, o.RawTxs...)
+	if o.Reply != nil {
+		obs.Writes = append(obs.Writes, c01Write{H: 1, C: o.Reply, SendsOKPrev: o.RawTxsBeforeReply})
+	}
+	return obs
+}
+
 // ---- one case -----------------------------------------------------------------------------------------
 
 func c01Run(t testing.TB, in c01In, slow int) c01Obs {
+	if in.E2E != nil {
+		return c01RunE2ECase(t, *in.E2E, slow)
+	}
 	c01Setup(t)
 	logger := slog.New(slog.NewTextHandler(io.Discard, nil))
 	short := time.Duration(slow) * 250 * time.Millisecond // deadline of cases that must time out
 	long := 20 * time.Second
-	wait := time.Duration(slow) * 15 * time.Second
+	// wall-clock limit of one blocking step of the driver (longer than the handler's own 5 s deadline, so a
+	// handler that ends by that deadline is seen returning; anything slower is observed as a hang, code 98)
+	ws := slow
+	if ws > 2 {
+		ws = 2
+	}
+	wait := time.Duration(ws) * 7 * time.Second
 
 	node := &c01Key{key: c01NodeKey, record: true, fail: in.H.SignErr}
 	store := &c01Store{allow: in.H.Allow}
@@ -686,7 +746,11 @@ func c01Coq(id int, in c01In, obs c01Obs) string {
 	if obs.TimedAt >= 0 {
 		timed = "(Some " + coqN(uint64(obs.TimedAt)) + ")"
 	}
-	return coqRecord("id", coqN(uint64(id)), "contract", coqBytes(in.Contract), "evs", coqList(obs.Events),
+	contract := in.Contract
+	if obs.Mode != 0 {
+		contract = obs.Contract
+	}
+	return coqRecord("id", coqN(uint64(id)), "mode", coqN(uint64(obs.Mode)), "contract", coqBytes(contract), "evs", coqList(obs.Events),
 		"timed_at", timed, "evs_after", coqList(obs.EventsAfter),
 		"ob", coqRecord("o_rets", coqList(rets), "o_signed", coqList(signed), "o_sends", coqList(sends),
 			"o_writes", coqList(writes), "o_pending", "0%N"))
@@ -807,7 +871,30 @@ func c01Generate(r *rand.Rand, class string) c01In {
 	return in
 }
 
-func c01Main(t *testing.T, classes []string, reps int, timed int) {
+// the end-to-end matrix {role} x {allowance} x {engine} x {store}
+func c01E2EJobs(r *rand.Rand, tier string, quick int) []c01In {
+	mk := func(role string, allow bool, engine string, store bool) c01In {
+		return c01In{E2E: &c01E2EIn{Role: role, Allow: allow, Engine: engine, StoreOK: store, Bid: c01GoodBid(r)}}
+	}
+	if tier != "thorough" {
+		// accepted path (wrong commitment store shows), rejecting engine (auto-accepting processor shows),
+		// provider-role sender (missing role check shows)
+		return []c01In{mk("bidder", true, "accept", true), mk("bidder", true, "reject", true), mk("provider", true, "accept", true)}[:quick]
+	}
+	out := []c01In{}
+	for _, role := range []string{"bidder", "provider"} {
+		for _, allow := range []bool{true, false} {
+			for _, engine := range []string{"accept", "reject", "silent"} {
+				for _, store := range []bool{true, false} {
+					out = append(out, mk(role, allow, engine, store))
+				}
+			}
+		}
+	}
+	return out
+}
+
+func c01Main(t *testing.T, classes []string, reps int, timed int, e2e int) {
 	e := vfOpen(t, 20)
 	defer e.Close()
 	var emu sync.Mutex
@@ -824,7 +911,13 @@ func c01Main(t *testing.T, classes []string, reps int, timed int) {
 		jobs = append(jobs, job{"replay", in})
 	}
 	if !e.OnlyReplay() {
-		// the true-deadline cases take 6-8 s each: start them first, they overlap with all the others
+		// end-to-end cases (about 10 s each, node.NewNode dials its own gRPC server with two failing TLS
+		// strategies first) and the true-deadline cases (6-8 s each) start first and overlap with all the others
+		if e2e > 0 {
+			for _, in := range c01E2EJobs(e.rng, e.Tier, e2e) {
+				jobs = append(jobs, job{"e2e-node", in})
+			}
+		}
 		for i := 0; i < timed; i++ {
 			for _, c := range []string{"true-late", "true-silent", "true-early"} {
 				jobs = append(jobs, job{c, c01Generate(e.rng, c)})
@@ -838,6 +931,8 @@ func c01Main(t *testing.T, classes []string, reps int, timed int) {
 	}
 	// handlers of different cases are independent: run them in parallel, emit in input order
 	results := make([]c01Obs, len(jobs))
+	skipped := make([]bool, len(jobs))
+	var hangs atomic.Int32
 	sem := make(chan struct{}, 12)
 	var wg sync.WaitGroup
 	for i := range jobs {
@@ -846,13 +941,26 @@ func c01Main(t *testing.T, classes []string, reps int, timed int) {
 		go func(i int) {
 			defer wg.Done()
 			defer func() { <-sem }()
+			if hangs.Load() >= 5 { // a broken tree: do not wait out the limit of every remaining case
+				skipped[i] = true
+				return
+			}
 			results[i] = c01Run(t, jobs[i].in, e.Slow)
+			for _, r := range results[i].Rets {
+				if r[1] == 97 || r[1] == 98 {
+					hangs.Add(1)
+					break
+				}
+			}
 		}(i)
 	}
 	wg.Wait()
 	emu.Lock()
 	defer emu.Unlock()
 	for i, j := range jobs {
+		if skipped[i] {
+			continue
+		}
 		obs := results[i]
 		in := j.in
 		e.Emit(j.class, in, obs, func(id int) string { return c01Coq(id, in, obs) })
@@ -861,9 +969,9 @@ func c01Main(t *testing.T, classes []string, reps int, timed int) {
 
 func TestVerifC01(t *testing.T) {
 	c01Main(t, []string{"accepted", "role", "tamper", "tamper", "allowance", "format", "format", "read", "engine", "engine",
-		"engine", "store", "write", "signer", "matrix", "matrix", "matrix"}, 1, map[bool]int{true: 4, false: 1}[os.Getenv("VERIF_TIER") == "thorough"])
+		"engine", "store", "write", "signer", "matrix", "matrix", "matrix"}, 1, map[bool]int{true: 4, false: 1}[os.Getenv("VERIF_TIER") == "thorough"], 3)
 }
 
 func TestVerifC07(t *testing.T) {
-	c01Main(t, []string{"accepted", "accepted", "accepted", "store", "write", "engine", "matrix"}, 2, 0)
+	c01Main(t, []string{"accepted", "accepted", "accepted", "store", "write", "engine", "matrix"}, 2, 0, 1)
 }
